@@ -135,6 +135,24 @@ where
     true
 }
 
+/// `reenter`: what the wrapped iterator's `next()` does with the concurrent iterator around it (two length queries)
+fn reenter_tramp<I>(p: usize)
+where
+    I: ConcurrentIter + AtomicIter<<I as ConcurrentIter>::Item>,
+{
+    let slots = unsafe { &*(p as *const Vec<OnceLock<I>>) };
+    let prev = set_track(true);
+    let more = match slot_of(slots, 0).has_more() {
+        HasMore::Yes(n) => n as i128,
+        HasMore::Maybe => -1,
+        HasMore::No => 0,
+    };
+    let len = slot_of(slots, 0).try_get_len();
+    set_track(false);
+    tlog!("reenter more {} len {:?}", more, len);
+    set_track(prev);
+}
+
 fn slot_of<I>(slots: &[OnceLock<I>], k: usize) -> &I {
     let k = if k == 0 && rt::RELOCATED.load(std::sync::atomic::Ordering::Relaxed) { NSLOTS - 1 } else { k };
     match slots.get(k).and_then(|s| s.get()) {
@@ -682,6 +700,7 @@ where
         rt::register_loc(a, name);
     }
 
+    rt::set_reenter(case.reenter, &slots as *const Vec<OnceLock<I>> as usize, reenter_tramp::<I>);
     let (bufs, outcome) = {
         let slots = &slots;
         std::thread::scope(|s| {
@@ -770,6 +789,7 @@ where
         })
     };
 
+    rt::clear_reenter();
     // owner phase -----------------------------------------------------------------------------
     set_track(true);
     for b in bufs {
